@@ -2,6 +2,7 @@ package props
 
 import (
 	"fmt"
+	"github.com/avfs/avfs/vfs/basepathfs"
 	"sort"
 	"strings"
 
@@ -68,11 +69,15 @@ func newOSPair(kind string) *osPair {
 	return p
 }
 
+// c17WinVolume is the volume the Windows-typed twin works on in the run in progress (set on the main goroutine
+// at the start of a run): the default one, or a second drive added for the run.
+var c17WinVolume = avfs.DefaultVolume //nolint:gochecknoglobals // see above.
+
 // portable builds the path of the components on one instance: Join under its own root or volume.
 func portable(v avfs.VFS, comps []string, rel bool) string {
 	if len(comps) == 0 && !rel {
 		if v.OSType() == avfs.OsWindows {
-			return avfs.DefaultVolume + string(v.PathSeparator())
+			return c17WinVolume + string(v.PathSeparator())
 		}
 
 		return "/"
@@ -84,7 +89,7 @@ func portable(v avfs.VFS, comps []string, rel bool) string {
 
 	root := "/"
 	if v.OSType() == avfs.OsWindows {
-		root = avfs.DefaultVolume + string(v.PathSeparator())
+		root = c17WinVolume + string(v.PathSeparator())
 	}
 
 	return v.Join(append([]string{root}, comps...)...)
@@ -150,12 +155,12 @@ func c17Comps(t *sim.Tape) []string {
 	return append([]string{"w"}, out...)
 }
 
-func c17Gen(t *sim.Tape, kind string, uniq string, chdirDone bool) c17Op {
+func c17Gen(t *sim.Tape, kind string, uniq string, chdirDone, wrapped bool) c17Op {
 	kinds := []string{
 		"Mkdir", "MkdirAll", "WriteFile", "ReadFile", "ReadDir", "Remove", "RemoveAll", "Rename", "Link", "Truncate", "Stat", "Lstat", "OpenFile", "FWrite",
-		"FRead", "FClose", "Chdir", "Getwd", "Symlink", "Readlink", "EvalSymlinks", "Create", "FTruncate", "FStat", "Exists", "CreateTemp", "MkdirTemp",
+		"FRead", "FClose", "Chdir", "Getwd", "Symlink", "Readlink", "EvalSymlinks", "Create", "FTruncate", "FStat", "Exists", "CreateTemp", "MkdirTemp", "Sub",
 	}
-	weights := []int{4, 3, 5, 3, 3, 3, 2, 4, 2, 2, 2, 2, 3, 2, 1, 1, 2, 1, 2, 1, 1, 1, 1, 1, 1, 1, 1}
+	weights := []int{4, 3, 5, 3, 3, 3, 2, 4, 2, 2, 2, 2, 3, 2, 1, 1, 2, 1, 2, 1, 1, 1, 1, 1, 1, 1, 1, 1}
 
 	if kind == "orefafs" {
 		weights[18], weights[19], weights[20] = 0, 0, 0
@@ -164,8 +169,25 @@ func c17Gen(t *sim.Tape, kind string, uniq string, chdirDone bool) c17Op {
 	o := c17Op{K: kinds[t.Weighted(weights)]}
 	o.P = c17Comps(t)
 	o.PRel = chdirDone && t.Chance(300)
+
 	if o.PRel {
 		o.P = o.P[1:]
+	}
+
+	if wrapped {
+		// through a BasePathFS rooted at the work directory: its own root, "." and ".." are operands too.
+		if !o.PRel {
+			o.P = o.P[1:]
+		}
+
+		switch t.Int(12) {
+		case 0:
+			o.P, o.PRel = nil, false
+		case 1:
+			o.P, o.PRel = []string{"."}, true
+		case 2:
+			o.P, o.PRel = []string{".."}, true
+		}
 	}
 
 	switch o.K {
@@ -179,6 +201,11 @@ func c17Gen(t *sim.Tape, kind string, uniq string, chdirDone bool) c17Op {
 
 		if o.TRel {
 			o.Target = o.Target[1:] // relative to the link's directory
+
+			if t.Chance(350) {
+				// leaving the link's directory: the search goes on from the root of the volume.
+				o.Target = append([]string{".."}, o.Target...)
+			}
 		}
 	case "WriteFile":
 		o.Rest.Data, o.Rest.Perm = uniq, 0o644
@@ -208,6 +235,18 @@ func c17Gen(t *sim.Tape, kind string, uniq string, chdirDone bool) c17Op {
 		o.P = [][]string{{"w", "a"}, {"w"}, {"w", "x"}}[t.Int(3)]
 		o.PRel = false
 		o.Rest.Q, o.Rest.H = "t*", t.Int(2)
+
+		if wrapped {
+			o.P = o.P[1:]
+		}
+	}
+
+	if wrapped && o.Q != nil {
+		o.Q = o.Q[1:]
+	}
+
+	if wrapped && o.Target != nil && !o.TRel {
+		o.Target = o.Target[1:]
 	}
 
 	return o
@@ -379,14 +418,50 @@ func (p C17) Run(c *sim.Ctx, t *sim.Tape) sim.RunResult {
 
 	okMut := 0
 	chdirDone := false
+	c17WinVolume = avfs.DefaultVolume
+
+	if pr.winVolumes != nil && t.Chance(350) {
+		// the Windows-typed twin works on a second drive, entered with Chdir (the Linux-typed one stays where it is).
+		_ = pr.winVolumes.VolumeAdd("D:")
+
+		for _, vol := range pr.winVolumes.VolumeList() {
+			if vol == "D:" {
+				c17WinVolume = "D:"
+			}
+		}
+
+		if c17WinVolume == "D:" {
+			if err := pr.win.Chdir(portable(pr.win, nil, false)); err != nil {
+				return fail(-1, c17Op{K: "Chdir"}, "outcome-differs", "cannot enter the root of an added volume", err.Error())
+			}
+
+			c.Count("runs_on_a_second_volume", 1)
+		}
+	}
 
 	if e1, e2 := pr.lin.Mkdir(portable(pr.lin, []string{"w"}, false), 0o755), pr.win.Mkdir(portable(pr.win, []string{"w"}, false), 0o755); e1 != nil || e2 != nil {
 		return fail(-1, c17Op{K: "Mkdir", P: []string{"w"}}, "outcome-differs", "cannot create the work directory", fmt.Sprint(e1, e2))
 	}
 
+	// every fourth run drives both twins through a BasePathFS rooted at the work directory.
+	wrapped := c17WinVolume == avfs.DefaultVolume && t.Chance(250)
+	if wrapped {
+		lw, e1 := basepathfs.NewWithErr(pr.lin, portable(pr.lin, []string{"w"}, false))
+		ww, e2 := basepathfs.NewWithErr(pr.win, portable(pr.win, []string{"w"}, false))
+
+		if e1 != nil || e2 != nil {
+			return fail(-1, c17Op{K: "New"}, "outcome-differs", "cannot create a BasePathFS on the work directory", fmt.Sprint(e1, e2))
+		}
+
+		pr.le, pr.we = &fsx.Env{VFS: lw}, &fsx.Env{VFS: ww}
+		tr.FS += " through BasePathFS"
+
+		c.Count("runs_through_basepathfs", 1)
+	}
+
 	for i := 0; i < 40 && (i < 5 || t.Chance(930)); i++ {
-		o := c17Gen(t, kind, fmt.Sprintf("<%d>", i), chdirDone)
-		lop, wop := o.on(pr.lin), o.on(pr.win)
+		o := c17Gen(t, kind, fmt.Sprintf("<%d>", i), chdirDone, wrapped)
+		lop, wop := o.on(pr.le.VFS), o.on(pr.we.VFS)
 
 		var lr, wr fsx.Result
 
